@@ -73,6 +73,9 @@ package main
 //@   assert at call Save [C03] author_subscribed: t.cat == types.TopicCatSys || ((asUid in t.perUser) && !t.perUser[asUid].deleted)
 //@   ensures [C03] denied: old(t.cat != types.TopicCatSys && (effMode(t, asUid) & types.ModeWrite) == 0) ==> err != nil && t.lastID == old(t.lastID) && rowMax == old(rowMax) && hwm == old(hwm) && outCount[msg.sess] == old(outCount[msg.sess]) + 1 && (forall s int :: s != ref(msg.sess) ==> outCount[s] == old(outCount[s]))
 //@   assert at call Save [C01] seq_is_next: $1.SeqId == old(t.lastID) + 1 && t.lastID == old(t.lastID) && $1.Topic == t.name
+// (C02: every copy names the topic as its recipient does. For p2p and channel-enabled topics the name is rewritten per
+// recipient; for a plain group it is what is handed over here, whatever spelling the request used)
+//@   assert at call broadcastToSessions [C02] plain_group_named_as_itself: t.cat == types.TopicCatGrp && !t.isChan ==> $1.Data != nil && $1.Data.Topic == t.xoriginal
 //@   assert at call broadcastToSessions [C01] data_seq: t.lastID == old(t.lastID) + 1 && $1.Data != nil && $1.Data.SeqId == t.lastID
 //@   modifies inferred
 
